@@ -19,7 +19,7 @@ def one(diff):
     finally:
         shutil.rmtree(tmp,ignore_errors=True)
 with ThreadPoolExecutor(15) as ex:
-    for diff,bad in ex.map(one,sys.argv[1:]):
+    for diff,bad in ex.map(one,[os.path.abspath(a) for a in sys.argv[1:]]):
         print(diff, 'SILENT' if not bad else 'NOT-SILENT')
         for b in bad:
             if b[0]=='APPLY': print('   ',b); continue
